@@ -76,7 +76,33 @@ impl Plugin for Spn {
         cand: &[EntrySealedCommitted],
         _conflict_uuids: &BTreeSet<Uuid>,
     ) -> Result<(), OperationError> {
-        Self::post_modify_inner(qs, pre_cand, cand)
+        Self::post_modify_inner(qs, pre_cand, cand)?;
+
+        // Name and spn are merged independently by their change ids, so a rename on one
+        // replica merged with an unrelated (later) change to the same entry on another can
+        // leave the spn disagreeing with the name. Regenerate the spn of any replicated
+        // entry where that happened.
+        let domain_name = qs.get_domain_name().to_string();
+        let stale: Vec<_> = cand
+            .iter()
+            .filter(|e| {
+                e.mask_recycled_ts().is_some()
+                    && (e.attribute_equality(Attribute::Class, &EntryClass::Group.into())
+                        || e.attribute_equality(Attribute::Class, &EntryClass::Account.into()))
+                    && e.generate_spn(&domain_name).as_ref() != e.get_ava_set(Attribute::Spn)
+            })
+            .map(|e| f_eq(Attribute::Uuid, PartialValue::Uuid(e.get_uuid())))
+            .collect();
+
+        if stale.is_empty() {
+            return Ok(());
+        }
+
+        // Purge the spn and allow pre_modify to recreate it from the merged name.
+        qs.internal_modify(
+            &filter!(f_or(stale)),
+            &modlist!([m_purge(Attribute::Spn)]),
+        )
     }
 
     #[instrument(level = "debug", name = "spn::verify", skip_all)]
